@@ -76,6 +76,13 @@ func ms(n int) time.Duration { return time.Duration(n) * time.Millisecond }
 
 func runC05(r *simkit.Run) {
 	tp := r.Tape
+	if tp.Chance(1, 8) {
+		// supplement for the last clause with split requests: the full exporter simulation (persistent queue, retry,
+		// optional legacy batcher) with the "no final outcome => still stored" oracle
+		r.Logf("supplement: shutdown-interrupted retries of (split) requests on a persistent queue")
+		runFull(r, "C05")
+		return
+	}
 	cfg := c05Config(tp)
 	r.Sample = cfg
 	queuebatch.VerifResetPools()
@@ -467,7 +474,7 @@ var _ = errors.Is
 
 var HarnessC05 = simkit.Harness{
 	Prop: "C05", Name: "exp/c05", Run: runC05, StepTimeout: 10e9,
-	Real: []string{"exporterhelper.NewLogs/NewTraces/NewMetrics without queue (and with a persistent queue for the shutdown clause)", "retry sender with the cenkalti/backoff exponential back-off on the virtual clock", "timeout sender", "request OnError narrowing for partial failures", "consumererror permanent classification, experr shutdown classification"},
+	Real: []string{"exporterhelper.NewLogs/NewTraces/NewMetrics without queue (and with a persistent queue for the shutdown clause; 1 run in 8 is the full exporter simulation of C03 restricted to persistent queue + retry + optional legacy batcher, for shutdown-interrupted retries of split requests)", "retry sender with the cenkalti/backoff exponential back-off on the virtual clock", "timeout sender", "request OnError narrowing for partial failures", "consumererror permanent classification, experr shutdown classification"},
 	Stub: []string{"backend following a tape-drawn outcome script (ok / transient / permanent / throttle d / partial with remaining subset / hang)", "caller with optional deadline", "storage extension (simdisk)"},
 	Rule: "one run = one tape-drawn back-off configuration accepted by Validate() (initial, max interval, multiplier, randomization 0 or 0.5, max_elapsed_time, per-attempt timeout), optional caller deadline, one outcome script of 1-7 answers and optionally a shutdown placed at 0/50/99% of the minimum wait after a chosen attempt; the reference model is evaluated attempt by attempt on the virtual clock (exact instants when randomization is 0); distinct = distinct event-log hash; non-trivial = more than one attempt or a shutdown inside a wait",
 }
